@@ -211,7 +211,14 @@ impl RoutingTable {
         match self.entry(Key::from(peer)) {
             KBucketEntry::Occupied(entry) => {
                 entry.push_addresses(addresses);
-                entry.connection = connection;
+
+                // The `Connected` state is learned from the transport (see
+                // `on_connection_established()`) and is revoked by the owner of the routing
+                // table when the connection is closed. Re-discovering the peer must not
+                // downgrade it, otherwise a connected peer becomes subject to eviction.
+                if entry.connection != ConnectionType::Connected {
+                    entry.connection = connection;
+                }
             }
             mut entry @ KBucketEntry::Vacant(_) => {
                 entry.insert(KademliaPeer::new(peer, addresses, connection));
